@@ -76,6 +76,7 @@ func TestColdStart(t *testing.T) {
 func TestMain(m *testing.M) { vk.Main(m, "C02") }
 
 type Case struct {
+	Max     int          `json:"max,omitempty"` // v+1: the maximum bitmap of exactly 2^25 words = 2^31 bits, description v (gen.UseMax)
 	Words   vk.Words     `json:"words,omitempty"`
 	Big     *gen.BigSpec `json:"big,omitempty"`
 	Style   string       `json:"style,omitempty"`
@@ -96,12 +97,16 @@ var checker = &vk.Checker[Case]{
 	Rule: "bitmaps drawn by style (select-hostile: exact-count 32k-1/32k/32k+1 ones, islands with runs of empty words, tail = last 1 at the very last bit, palette words, all densities) and length class; " +
 		"grid: every byte value at each byte position x 4 fills as [w] and [w,0,w] (thorough: every 16-bit pattern x 4 positions x 3 fills); every valid i in [0,n) is queried when n <= 4096 " +
 		"(else 0, n-1, all i = -1,0,1 mod 32 and sampled i) through Select32, Select32R64 and Rank64(select(i)) against the naive list of 1-positions; both indexes compared entry by entry, after the index builders have been called on other bitmaps (a result aliasing library-owned memory is seen). " +
+		"Thorough only: both indexes and every select on the MAXIMUM bitmap (exactly 2^25 words = 2^31 bits, two sparse descriptions; the next-position of the last one, 2^31, fits no int32 and is not asserted). " +
 		"Non-trivial: n >= 2 (so a query with i%32 != 0 runs the in-word search and the next-1 scan). Distinct by hash of the case.",
 	Check:    check,
 	Classify: classify,
 }
 
 func classify(c Case) (bool, []string) {
+	if c.Max > 0 {
+		return true, []string{"style:maximum-bitmap(2^25 words)"}
+	}
 	if len(c.Style) > 11 && c.Style[:11] == "cold-start:" {
 		return false, []string{"cold-start-failure"}
 	}
@@ -150,7 +155,59 @@ func classify(c Case) (bool, []string) {
 
 var scratch vk.Scratch
 
+// checkMax: select on the largest bitmap whose positions fit an int32 (sparse oracle from its description).
+// The "next" position of the LAST one would be 64*len(words) = 2^31, which no int32 holds: it is not asserted.
+func checkMax(v int) *vk.Failure {
+	if v < 0 || v >= gen.MaxVariants {
+		return nil
+	}
+	w := gen.UseMax(v)
+	ones := gen.MaxOnes()
+	var s1, s2, r2 []int32
+	if f := vk.Try("IndexSelect32/IndexSelect32R64 on 2^25 words", func() {
+		s1 = bitmap.IndexSelect32(w)
+		s2, r2 = bitmap.IndexSelect32R64(w)
+	}); f != nil {
+		return f
+	}
+	for name, s := range map[string][]int32{"IndexSelect32": s1, "IndexSelect32R64": s2} {
+		if len(s) != (len(ones)+31)/32 {
+			return vk.Failf("index-len", "2^25-word bitmap (description %d): %s has %d entries, want %d", v, name, len(s), (len(ones)+31)/32)
+		}
+		for k := range s {
+			if int64(s[k]) != ones[32*k] {
+				return vk.Failf("index-entry", "2^25-word bitmap (description %d): %s[%d] = %d, want %d", v, name, k, s[k], ones[32*k])
+			}
+		}
+	}
+	if len(r2) != gen.MaxWords+1 {
+		return vk.Failf("index-len", "2^25-word bitmap: the rank index of IndexSelect32R64 has %d entries, want %d", len(r2), gen.MaxWords+1)
+	}
+	for i := range ones {
+		var a, b, c, d int32
+		if f := vk.Try(fmt.Sprintf("Select32/Select32R64(i=%d) on 2^25 words (description %d)", i, v), func() {
+			a, b = bitmap.Select32(w, s1, int32(i))
+			c, d = bitmap.Select32R64(w, s2, r2, int32(i))
+		}); f != nil {
+			return f
+		}
+		if int64(a) != ones[i] || int64(c) != ones[i] {
+			return vk.Failf("select", "2^25-word bitmap (description %d): Select32/Select32R64(i=%d) = %d/%d, want %d", v, i, a, c, ones[i])
+		}
+		if i+1 < len(ones) && (int64(b) != ones[i+1] || int64(d) != ones[i+1]) {
+			return vk.Failf("select-next", "2^25-word bitmap (description %d): next of Select32/Select32R64(i=%d) = %d/%d, want %d", v, i, b, d, ones[i+1])
+		}
+	}
+	if k, bad := gen.MaxBitmapDamage(); bad {
+		return vk.Failf("argument-modified", "word %d of the 2^25-word bitmap was modified", k)
+	}
+	return nil
+}
+
 func check(c Case) (f *vk.Failure) {
+	if c.Max > 0 {
+		return checkMax(c.Max - 1)
+	}
 	if len(c.Style) > 11 && c.Style[:11] == "cold-start:" {
 		// a cold-start failure is only observable by the first calls of a process: the replay re-evaluates
 		// the probe result of its own process
@@ -411,6 +468,11 @@ func TestGrid(t *testing.T) {
 					checker.Run(t, Case{Words: w, Style: "grid-pow2-checkpoints"})
 				}
 			}
+		}
+	}
+	if shard == 0 && vk.Thorough() { // exactly 2^31 bits (the index builders walk every bit: seconds, thorough only)
+		for _, v := range []int{0, 2} {
+			checker.Run(t, Case{Max: v + 1, Style: "maximum"})
 		}
 	}
 	if shard == 0 { // a few very large bitmaps in every run
